@@ -1317,9 +1317,13 @@ func parseExtTypeDef(pi PackageInfo, ps ParseState) ParseState {
 
 func parseExtFuncDef(pi PackageInfo, ps ParseState) ParseState {
 	ps2, fname := frt.Destr2(frt.Pipe(psConsume(New_TokenType_LET, ps), psIdentNameNx))
-	ps3, tnames := frt.Destr2(mightParseIdList(ps2))
+	ps3, tnames := frt.Destr2(frt.Pipe(mightParseIdList(ps2), (func(_r0 frt.Tuple2[ParseState, []string]) frt.Tuple2[ParseState, []string] {
+		return MapL(psPushScope, _r0)
+	})))
 	psRegTypeVars(ps3, tnames)
-	ps4, fts := frt.Destr2(frt.Pipe(psConsume(New_TokenType_COLON, ps3), (func(_r0 ParseState) frt.Tuple2[ParseState, []FType] { return parseTypeArrows(parseType, _r0) })))
+	ps4, fts := frt.Destr2(frt.Pipe(frt.Pipe(psConsume(New_TokenType_COLON, ps3), (func(_r0 ParseState) frt.Tuple2[ParseState, []FType] { return parseTypeArrows(parseType, _r0) })), (func(_r0 frt.Tuple2[ParseState, []FType]) frt.Tuple2[ParseState, []FType] {
+		return MapL(psPopScope, _r0)
+	})))
 	ff := FuncFactory{Tparams: tnames, Targets: fts}
 	piRegFF(pi, fname, ff, ps4)
 	return ps4
